@@ -1,8 +1,892 @@
-//! Property check C13 (see /verif/DESIGN.md §4).
-use mc::{Level, Report};
+//! Property check C13 — decoders and byte-level entry points are total (see /verif/DESIGN.md §4).
+//!
+//! Parent process: enumerates the input families, runs the small exhaustive byte sweep in-process
+//! (catch_unwind + counting allocator) and every adversarial family in re-exec'd child processes
+//! (`--child <family> <lo> <hi>`) under RLIMIT_AS / RLIMIT_STACK / a wall timeout; classifies how
+//! each child ended.  Oracle per input: the call returns `Ok`/typed `Err`, peak allocation
+//! ≤ 64·len + 16 MiB, wall ≤ 2 s; the child exits normally.
+
+mod alloc;
+mod families;
+mod targets;
+
+use families::{Ctx, FAMILIES};
+use mc::{hex, json, unhex, Level, Report};
+use rayon::prelude::*;
+use std::collections::BTreeMap;
+use std::io::{BufRead, BufReader, Read, Write};
+use std::os::unix::process::{CommandExt, ExitStatusExt};
+use std::process::{Command, Stdio};
+use std::sync::atomic::{AtomicU64, Ordering};
+use std::time::{Duration, Instant};
+use targets::Target;
+
+pub const BUDGET_BASE: usize = 16 << 20;
+pub const BUDGET_PER_BYTE: usize = 64;
+pub const WALL_LIMIT_US: u128 = 2_000_000;
+const RLIMIT_AS_BYTES: u64 = 2 << 30;
+const RLIMIT_STACK_BYTES: u64 = 8 << 20;
+const CHILD_SILENCE_TIMEOUT: Duration = Duration::from_secs(6);
+
+pub fn budget(len: usize) -> usize {
+    BUDGET_BASE + BUDGET_PER_BYTE * len
+}
+
+/// Outcome of one call, as measured around the call.
+pub struct Measured {
+    pub outcome: Result<Result<(), String>, String>, // Err(panic message) | Ok(decoder result)
+    pub peak: usize,
+    pub micros: u128,
+}
+
+pub fn measure(t: &Target, input: &[u8]) -> Measured {
+    alloc::reset_peak();
+    let base = alloc::current();
+    let t0 = thread_cpu_us();
+    let outcome = mc::catch(|| (t.run)(input));
+    let micros = thread_cpu_us().saturating_sub(t0);
+    let peak = alloc::peak().saturating_sub(base);
+    Measured { outcome, peak, micros }
+}
+
+/// CPU time of the calling thread in µs (robust against a loaded machine; a hang is caught by the
+/// parent's wall-clock no-progress timeout).
+pub fn thread_cpu_us() -> u128 {
+    let mut ts = libc::timespec { tv_sec: 0, tv_nsec: 0 };
+    unsafe { libc::clock_gettime(libc::CLOCK_THREAD_CPUTIME_ID, &mut ts) };
+    (ts.tv_sec as u128) * 1_000_000 + (ts.tv_nsec as u128) / 1000
+}
+
+fn sanitize(msg: &str) -> String {
+    msg.chars().map(|c| if c.is_ascii_alphanumeric() { c } else { '-' }).take(48).collect::<String>().trim_matches('-').to_string()
+}
+
+/// One stable signature per root cause.
+fn signature(group: &str, class: &str, msg: &str) -> String {
+    match class {
+        "alloc" => format!("{group}:alloc-from-declared-length"),
+        "stack" => format!("{group}:unbounded-recursion-stack-overflow"),
+        "hang" => format!("{group}:hang-or-over-2s"),
+        "panic" if msg.contains("capacity overflow") => format!("{group}:alloc-from-declared-length"),
+        "panic" => format!("{group}:panic:{}", sanitize(msg)),
+        other => format!("{group}:{other}:{}", sanitize(msg)),
+    }
+}
+
+// ---------------------------------------------------------------------------------------------
+// child
+// ---------------------------------------------------------------------------------------------
+
+fn emit_result(idx: usize, ti: usize, t: &Target, input: &[u8]) {
+    let out = std::io::stdout();
+    {
+        let mut o = out.lock();
+        let _ = writeln!(o, "S {idx} {ti} {}", input.len());
+        let _ = o.flush();
+    }
+    let m = measure(t, input);
+    let mut o = out.lock();
+    let _ = match &m.outcome {
+        Ok(Ok(())) => writeln!(o, "R o {} {}", m.peak, m.micros),
+        Ok(Err(k)) => writeln!(o, "R e {} {} {}", m.peak, m.micros, k.replace(['\n', ' '], "_")),
+        Err(p) => writeln!(o, "R p {} {} {}", m.peak, m.micros, p.replace('\n', " ")),
+    };
+    let _ = o.flush();
+}
+
+/// Shared cell between the zygote and its forked worker: [index, target, len, running-flag].
+struct Shared(*mut u64);
+impl Shared {
+    fn new() -> Shared {
+        let p = unsafe { libc::mmap(std::ptr::null_mut(), 4096, libc::PROT_READ | libc::PROT_WRITE, libc::MAP_SHARED | libc::MAP_ANONYMOUS, -1, 0) };
+        assert!(p != libc::MAP_FAILED, "mmap shared cell");
+        Shared(p.cast())
+    }
+    fn set(&self, i: usize, v: u64) {
+        unsafe { std::ptr::write_volatile(self.0.add(i), v) }
+    }
+    fn get(&self, i: usize) -> u64 {
+        unsafe { std::ptr::read_volatile(self.0.add(i)) }
+    }
+}
+
+/// The body a worker runs for inputs `[lo, hi)` of a family (selftest families have one input).
+fn worker(family: &str, lo: usize, hi: usize, thorough: bool, shared: &Shared) {
+    if let Some(kind) = family.strip_prefix("selftest-") {
+        if lo == 0 {
+            shared.set(0, 0);
+            shared.set(1, 0);
+            shared.set(2, 0);
+            shared.set(3, 1);
+            let out = std::io::stdout();
+            {
+                let mut o = out.lock();
+                let _ = writeln!(o, "S 0 0 0");
+                let _ = o.flush();
+            }
+            families::selftest(kind);
+            let mut o = out.lock();
+            let _ = writeln!(o, "R o 0 0");
+            let _ = o.flush();
+            shared.set(3, 0);
+        }
+        return;
+    }
+    let ctx = Ctx::load();
+    let targets = targets::all();
+    if family == "adhoc" {
+        let tname = std::env::var("C13_ADHOC_TARGET").unwrap_or_default();
+        let input = match std::env::var("C13_ADHOC_INPUT_FILE") {
+            Ok(p) => std::fs::read(p).unwrap_or_default(),
+            Err(_) => unhex(&std::env::var("C13_ADHOC_INPUT").unwrap_or_default()),
+        };
+        let Some(ti) = targets.iter().position(|t| t.name == tname) else {
+            eprintln!("unknown adhoc target {tname}");
+            unsafe { libc::_exit(3) };
+        };
+        if lo == 0 {
+            shared.set(0, 0);
+            shared.set(1, ti as u64);
+            shared.set(2, input.len() as u64);
+            shared.set(3, 1);
+            emit_result(0, ti, &targets[ti], &input);
+            shared.set(3, 0);
+        }
+        return;
+    }
+    let Some(fam) = FAMILIES.iter().find(|f| f.name == family) else {
+        eprintln!("unknown family {family}");
+        unsafe { libc::_exit(3) };
+    };
+    let mut i = 0usize;
+    (fam.gen)(&ctx, &targets, thorough, &mut |ti: usize, build: &dyn Fn() -> Vec<u8>| {
+        let idx = i;
+        i += 1;
+        if idx < lo || idx >= hi {
+            return;
+        }
+        let input = build();
+        shared.set(0, idx as u64);
+        shared.set(1, ti as u64);
+        shared.set(2, input.len() as u64);
+        shared.set(3, 1);
+        emit_result(idx, ti, &targets[ti], &input);
+        shared.set(3, 0);
+    });
+}
+
+/// `--child <family> <lo> <hi> <tier>`: a zygote that forks one worker per stretch of inputs; when a
+/// worker dies (abort on allocation failure, stack overflow, …) the zygote reports which input
+/// killed it (`D` line) and forks the next worker right after that input.  fork() instead of
+/// re-exec keeps the cost of a fatal input at ~1 ms.
+fn child_main(args: &[String]) -> ! {
+    let family = args.get(0).cloned().unwrap_or_default();
+    let lo: usize = args.get(1).and_then(|s| s.parse().ok()).unwrap_or(0);
+    let hi: usize = args.get(2).and_then(|s| s.parse().ok()).unwrap_or(usize::MAX);
+    let thorough = args.get(3).map(|s| s == "thorough").unwrap_or(false);
+    mc::quiet_panics();
+    let shared = Shared::new();
+    let out = std::io::stdout();
+    let mut cur = lo;
+    let mut deaths = 0u32;
+    loop {
+        let mut fds = [0i32; 2];
+        if unsafe { libc::pipe(fds.as_mut_ptr()) } != 0 {
+            eprintln!("pipe failed");
+            std::process::exit(4);
+        }
+        shared.set(3, 0);
+        let pid = unsafe { libc::fork() };
+        if pid < 0 {
+            eprintln!("fork failed");
+            std::process::exit(4);
+        }
+        if pid == 0 {
+            unsafe {
+                libc::close(fds[0]);
+                libc::dup2(fds[1], 2);
+                libc::close(fds[1]);
+            }
+            worker(&family, cur, hi, thorough, &shared);
+            unsafe { libc::_exit(0) };
+        }
+        unsafe { libc::close(fds[1]) };
+        // drain the worker's stderr (EOF when it exits); keep the tail
+        let mut tail: Vec<u8> = Vec::new();
+        let mut buf = [0u8; 4096];
+        loop {
+            let n = unsafe { libc::read(fds[0], buf.as_mut_ptr().cast(), buf.len()) };
+            if n <= 0 {
+                break;
+            }
+            tail.extend_from_slice(&buf[..n as usize]);
+            if tail.len() > 8192 {
+                let cut = tail.len() - 4096;
+                tail.drain(..cut);
+            }
+        }
+        unsafe { libc::close(fds[0]) };
+        let mut status = 0i32;
+        unsafe { libc::waitpid(pid, &mut status, 0) };
+        if libc::WIFEXITED(status) && libc::WEXITSTATUS(status) == 0 {
+            let mut o = out.lock();
+            let _ = writeln!(o, "Z");
+            let _ = o.flush();
+            std::process::exit(0);
+        }
+        let err = String::from_utf8_lossy(&tail).to_string();
+        let (class, detail) = if err.contains("has overflowed its stack") {
+            ("stack", "stack overflow (guard page hit; runtime aborts)".to_string())
+        } else if err.contains("memory allocation of") {
+            ("alloc", format!("{} (abort)", err.lines().find(|l| l.contains("memory allocation of")).unwrap_or("").trim()))
+        } else if libc::WIFSIGNALED(status) && libc::WTERMSIG(status) == libc::SIGSEGV {
+            ("stack", "SIGSEGV".to_string())
+        } else if libc::WIFSIGNALED(status) {
+            ("signal", format!("signal {}", libc::WTERMSIG(status)))
+        } else {
+            ("exit", format!("exit code {}: {}", libc::WEXITSTATUS(status), err.lines().last().unwrap_or("")))
+        };
+        let running = shared.get(3) == 1;
+        let idx = shared.get(0) as usize;
+        let mut o = out.lock();
+        if running {
+            let _ = writeln!(o, "D {idx} {} {} {class} {}", shared.get(1), shared.get(2), detail.replace('\n', " "));
+            cur = idx + 1;
+        } else {
+            let _ = writeln!(o, "X {cur} {class} {}", detail.replace('\n', " "));
+            cur += 1;
+        }
+        let _ = o.flush();
+        drop(o);
+        deaths += 1;
+        if cur >= hi || deaths > 200_000 {
+            let mut o = out.lock();
+            let _ = writeln!(o, "Z");
+            let _ = o.flush();
+            std::process::exit(0);
+        }
+    }
+}
+
+// ---------------------------------------------------------------------------------------------
+// parent: child supervision
+// ---------------------------------------------------------------------------------------------
+
+#[derive(Debug, Clone)]
+struct Death {
+    class: &'static str, // alloc | stack | hang | signal | exit
+    detail: String,
+}
+
+#[derive(Default)]
+struct FamilyStats {
+    inputs: u64,
+    ok: u64,
+    err: u64,
+    panics: u64,
+    over_budget: u64,
+    over_time: u64,
+    deaths: BTreeMap<String, u64>,
+    children: u64,
+    max_peak: usize,
+    max_micros: u128,
+    err_kinds: BTreeMap<String, u64>,
+    keys: Vec<u128>,
+    violations: Vec<Viol>,
+}
+
+struct Viol {
+    sig: String,
+    family: String,
+    index: usize,
+    target: String,
+    len: usize,
+    what: String,
+}
+
+enum Line {
+    Start(usize, usize, usize),
+    Res(char, usize, u128, String),
+    /// worker died while running input (idx, target, len): class, detail
+    Died(usize, usize, usize, String, String),
+    /// worker died outside any input
+    Stray(usize, String),
+    End,
+}
+
+fn parse(line: &str) -> Option<Line> {
+    let (tag, rest) = line.split_once(' ').unwrap_or((line, ""));
+    let take = |r: &str, n: usize| -> Option<(Vec<String>, String)> {
+        let mut parts: Vec<String> = Vec::new();
+        let mut rem = r;
+        for _ in 0..n {
+            let (a, b) = rem.split_once(' ').unwrap_or((rem, ""));
+            if a.is_empty() {
+                return None;
+            }
+            parts.push(a.to_string());
+            rem = b;
+        }
+        Some((parts, rem.to_string()))
+    };
+    match tag {
+        "S" => {
+            let (p, _) = take(rest, 3)?;
+            Some(Line::Start(p[0].parse().ok()?, p[1].parse().ok()?, p[2].parse().ok()?))
+        }
+        "R" => {
+            let (p, msg) = take(rest, 3)?;
+            Some(Line::Res(p[0].chars().next()?, p[1].parse().ok()?, p[2].parse().ok()?, msg))
+        }
+        "D" => {
+            let (p, detail) = take(rest, 4)?;
+            Some(Line::Died(p[0].parse().ok()?, p[1].parse().ok()?, p[2].parse().ok()?, p[3].clone(), detail))
+        }
+        "X" => {
+            let (p, detail) = take(rest, 2)?;
+            Some(Line::Stray(p[0].parse().ok()?, format!("{} {detail}", p[1])))
+        }
+        "Z" => Some(Line::End),
+        _ => None,
+    }
+}
+
+static CHILDREN: AtomicU64 = AtomicU64::new(0);
+
+/// Run one child over `[lo, hi)`; returns (index after the last completed input, death if any).
+fn run_child(family: &str, lo: usize, hi: usize, thorough: bool, targets: &[Target], st: &mut FamilyStats) -> (usize, Option<Death>) {
+    let exe = std::env::current_exe().expect("current_exe");
+    let mut cmd = Command::new(exe);
+    cmd.arg("--child").arg(family).arg(lo.to_string()).arg(hi.to_string()).arg(if thorough { "thorough" } else { "quick" });
+    cmd.stdin(Stdio::null()).stdout(Stdio::piped()).stderr(Stdio::piped());
+    unsafe {
+        cmd.pre_exec(|| {
+            let set = |res, v: u64| {
+                let l = libc::rlimit { rlim_cur: v as libc::rlim_t, rlim_max: v as libc::rlim_t };
+                libc::setrlimit(res, &l);
+            };
+            set(libc::RLIMIT_AS, RLIMIT_AS_BYTES);
+            set(libc::RLIMIT_CORE, 0);
+            let l = libc::rlimit { rlim_cur: RLIMIT_STACK_BYTES as libc::rlim_t, rlim_max: libc::RLIM_INFINITY };
+            libc::setrlimit(libc::RLIMIT_STACK, &l);
+            // own process group: a timeout kills the zygote together with its forked worker
+            libc::setpgid(0, 0);
+            Ok(())
+        });
+    }
+    let mut child = match cmd.spawn() {
+        Ok(c) => c,
+        Err(e) => return (lo, Some(Death { class: "exit", detail: format!("spawn failed: {e}") })),
+    };
+    CHILDREN.fetch_add(1, Ordering::Relaxed);
+    st.children += 1;
+    let stdout = child.stdout.take().expect("piped stdout");
+    let mut stderr = child.stderr.take().expect("piped stderr");
+    let (tx, rx) = std::sync::mpsc::channel::<String>();
+    let reader = std::thread::spawn(move || {
+        for line in BufReader::new(stdout).lines().map_while(Result::ok) {
+            if tx.send(line).is_err() {
+                break;
+            }
+        }
+    });
+    let errt = std::thread::spawn(move || {
+        let mut s = Vec::new();
+        let _ = stderr.read_to_end(&mut s);
+        String::from_utf8_lossy(&s[s.len().saturating_sub(2000)..]).to_string()
+    });
+    let mut current: Option<(usize, usize, usize)> = None;
+    let mut next = lo;
+    let mut finished = false;
+    let mut timed_out = false;
+    loop {
+        match rx.recv_timeout(CHILD_SILENCE_TIMEOUT) {
+            Ok(line) => match parse(&line) {
+                Some(Line::Start(i, t, l)) => current = Some((i, t, l)),
+                Some(Line::Res(c, peak, us, msg)) => {
+                    let Some((i, ti, len)) = current.take() else { continue };
+                    next = i + 1;
+                    st.inputs += 1;
+                    st.max_peak = st.max_peak.max(peak);
+                    st.max_micros = st.max_micros.max(us);
+                    let Some(tt) = targets.get(ti) else { continue };
+                    let tname = &tt.name;
+                    let tgroup = tt.sig_group;
+                    let mut key = family.as_bytes().to_vec();
+                    key.extend_from_slice(&(i as u64).to_le_bytes());
+                    st.keys.push(Report::key(&key));
+                    match c {
+                        'o' => st.ok += 1,
+                        'e' => {
+                            st.err += 1;
+                            *st.err_kinds.entry(format!("{}:{}", targets[ti].sig_group, msg)).or_default() += 1;
+                        }
+                        _ => {
+                            st.panics += 1;
+                            st.violations.push(Viol { sig: signature(tgroup, "panic", &msg), family: family.into(), index: i, target: tname.clone(), len, what: format!("panic: {msg}") });
+                        }
+                    }
+                    if peak > budget(len) {
+                        st.over_budget += 1;
+                        st.violations.push(Viol { sig: signature(tgroup, "alloc", ""), family: family.into(), index: i, target: tname.clone(), len, what: format!("peak allocation {peak} B for a {len}-byte input (budget {})", budget(len)) });
+                    }
+                    if us > WALL_LIMIT_US {
+                        st.over_time += 1;
+                        st.violations.push(Viol { sig: signature(tgroup, "hang", ""), family: family.into(), index: i, target: tname.clone(), len, what: format!("{us} µs") });
+                    }
+                }
+                Some(Line::Died(i, ti, len, class, detail)) => {
+                    current = None;
+                    next = i + 1;
+                    st.inputs += 1;
+                    *st.deaths.entry(class.clone()).or_default() += 1;
+                    let (tname, tgroup) = targets.get(ti).map(|t| (t.name.clone(), t.sig_group)).unwrap_or((format!("selftest#{ti}"), "selftest"));
+                    st.violations.push(Viol { sig: signature(tgroup, &class, &detail), family: family.into(), index: i, target: tname, len, what: detail });
+                }
+                Some(Line::Stray(i, detail)) => {
+                    next = i + 1;
+                    *st.deaths.entry("outside-input".into()).or_default() += 1;
+                    st.violations.push(Viol { sig: "harness:worker-died-outside-an-input".into(), family: family.into(), index: i, target: String::new(), len: 0, what: detail });
+                }
+                Some(Line::End) => {
+                    finished = true;
+                    break;
+                }
+                None => {}
+            },
+            Err(std::sync::mpsc::RecvTimeoutError::Timeout) => {
+                timed_out = true;
+                unsafe { libc::kill(-(child.id() as i32), libc::SIGKILL) };
+                let _ = child.kill();
+                break;
+            }
+            Err(std::sync::mpsc::RecvTimeoutError::Disconnected) => break,
+        }
+    }
+    let status = child.wait();
+    let _ = reader.join();
+    let err_tail = errt.join().unwrap_or_default();
+    if finished {
+        if let Ok(s) = &status {
+            if s.success() {
+                return (hi, None);
+            }
+        }
+    }
+    // abnormal end: attribute to the input that was running
+    let class_detail: (&'static str, String) = if timed_out {
+        ("hang", format!("no progress for {} s; killed", CHILD_SILENCE_TIMEOUT.as_secs()))
+    } else if err_tail.contains("has overflowed its stack") {
+        ("stack", "stack overflow (SIGSEGV on guard page → runtime abort)".into())
+    } else if err_tail.contains("memory allocation of") {
+        let l = err_tail.lines().find(|l| l.contains("memory allocation of")).unwrap_or("").to_string();
+        ("alloc", format!("{l} (abort)"))
+    } else {
+        match &status {
+            Ok(s) if s.signal() == Some(libc::SIGSEGV) => ("stack", "SIGSEGV".into()),
+            Ok(s) if s.signal().is_some() => ("signal", format!("signal {}", s.signal().unwrap_or(0))),
+            Ok(s) => ("exit", format!("exit code {:?}; stderr: {}", s.code(), err_tail.lines().last().unwrap_or(""))),
+            Err(e) => ("exit", format!("wait failed: {e}")),
+        }
+    };
+    let death = Death { class: class_detail.0, detail: class_detail.1 };
+    *st.deaths.entry(death.class.to_string()).or_default() += 1;
+    if let Some((i, ti, len)) = current {
+        st.inputs += 1;
+        let (tname, tgroup) = targets.get(ti).map(|t| (t.name.clone(), t.sig_group)).unwrap_or((format!("selftest#{ti}"), "selftest"));
+        st.violations.push(Viol { sig: signature(tgroup, death.class, &death.detail), family: family.into(), index: i, target: tname, len, what: death.detail.clone() });
+        (i + 1, Some(death))
+    } else {
+        (next.max(lo) + usize::from(next <= lo), Some(death))
+    }
+}
+
+/// One ad-hoc (target, input file) run in a fresh limited child.
+fn adhoc(target: &str, input_file: &std::path::Path, targets: &[Target]) -> (usize, Option<Death>, FamilyStats) {
+    static LOCK: std::sync::Mutex<()> = std::sync::Mutex::new(());
+    let _g = LOCK.lock();
+    std::env::set_var("C13_ADHOC_TARGET", target);
+    std::env::set_var("C13_ADHOC_INPUT_FILE", input_file);
+    let mut st = FamilyStats::default();
+    let (n, d) = run_child("adhoc", 0, 1, false, targets, &mut st);
+    std::env::remove_var("C13_ADHOC_INPUT_FILE");
+    (n, d, st)
+}
+
+fn run_family(family: &str, total: usize, thorough: bool, targets: &[Target]) -> FamilyStats {
+    let mut st = FamilyStats::default();
+    let mut lo = 0usize;
+    let mut restarts = 0;
+    while lo < total {
+        let (next, death) = run_child(family, lo, total, thorough, targets, &mut st);
+        if death.is_none() {
+            break;
+        }
+        restarts += 1;
+        if restarts > 20_000 {
+            st.violations.push(Viol { sig: "harness:too-many-child-restarts".into(), family: family.into(), index: lo, target: String::new(), len: 0, what: String::new() });
+            break;
+        }
+        lo = next;
+    }
+    st
+}
+
+// ---------------------------------------------------------------------------------------------
+// parent: in-process exhaustive byte sweep
+// ---------------------------------------------------------------------------------------------
+
+#[derive(Default)]
+struct SweepLocal {
+    ok: BTreeMap<usize, u64>,
+    err: BTreeMap<usize, u64>,
+    viol: Vec<(String, usize, Vec<u8>, String)>,
+    max_peak: usize,
+    keys: Vec<u128>,
+    n: u64,
+}
+
+fn sweep_one(targets: &[Target], b: &[u8], l: &mut SweepLocal) {
+    for (ti, t) in targets.iter().enumerate() {
+        if t.child_only {
+            continue;
+        }
+        l.n += 1;
+        let m = measure(t, b);
+        l.max_peak = l.max_peak.max(m.peak);
+        match &m.outcome {
+            Ok(Ok(())) => {
+                *l.ok.entry(ti).or_default() += 1;
+                let mut key = t.name.as_bytes().to_vec();
+                key.push(0);
+                key.extend_from_slice(b);
+                l.keys.push(Report::key(&key));
+            }
+            Ok(Err(_)) => *l.err.entry(ti).or_default() += 1,
+            Err(p) => l.viol.push((signature(t.sig_group, "panic", p), ti, b.to_vec(), format!("panic: {p}"))),
+        }
+        if m.peak > budget(b.len()) {
+            l.viol.push((signature(t.sig_group, "alloc", ""), ti, b.to_vec(), format!("peak allocation {} B", m.peak)));
+        }
+        if m.micros > WALL_LIMIT_US {
+            l.viol.push((signature(t.sig_group, "hang", ""), ti, b.to_vec(), format!("{} µs", m.micros)));
+        }
+    }
+}
+
+fn sweep(r: &Report, targets: &[Target]) {
+    let max_len = r.pick(2usize, 3usize);
+    let mut total = SweepLocal::default();
+    sweep_one(targets, &[], &mut total);
+    let mut strings = 1u64;
+    for len in 1..=max_len {
+        if r.over_budget_frac(0.5) {
+            r.cap_hit(&format!("in-process byte sweep stopped before length {len}"));
+            break;
+        }
+        let shards: Vec<(SweepLocal, u64)> = (0u16..256)
+            .into_par_iter()
+            .map(|first| {
+                let mut l = SweepLocal::default();
+                let n = mc::enumerate::byte_strings_with_first(first as u8, len, |b| sweep_one(targets, b, &mut l));
+                (l, n)
+            })
+            .collect();
+        for (l, n) in shards {
+            strings += n;
+            for (k, v) in l.ok {
+                *total.ok.entry(k).or_default() += v;
+            }
+            for (k, v) in l.err {
+                *total.err.entry(k).or_default() += v;
+            }
+            total.viol.extend(l.viol);
+            total.max_peak = total.max_peak.max(l.max_peak);
+            total.keys.extend(l.keys);
+            total.n += l.n;
+        }
+    }
+    r.eval(total.n);
+    r.counter("sweep:byte_strings", strings);
+    r.counter("sweep:calls", total.n);
+    r.counter("sweep:max_peak_allocation_bytes", total.max_peak as u64);
+    r.nontrivial_many(total.keys.iter().copied());
+    let mut per = serde_json::Map::new();
+    for (ti, t) in targets.iter().enumerate() {
+        if t.child_only {
+            continue;
+        }
+        let a = total.ok.get(&ti).copied().unwrap_or(0);
+        let e = total.err.get(&ti).copied().unwrap_or(0);
+        per.insert(t.name.clone(), json!({"returned_ok": a, "returned_typed_err": e}));
+        // a ≤3-byte WAL segment is a torn tail (Ok by design); its typed errors are guarded in the wal-segment family
+        r.guard(&format!("sweep:typed_errors_seen:{}", t.name), e > 0 || t.group == "wal-segment");
+        r.guard(&format!("sweep:ok_seen_or_min_len_exceeds_sweep:{}", t.name), a > 0 || t.min_len > max_len);
+    }
+    r.note("sweep:per_target", serde_json::Value::Object(per));
+    r.outcome_n("sweep:returned_ok", total.ok.values().sum());
+    r.outcome_n("sweep:returned_typed_err", total.err.values().sum());
+    total.viol.sort_by(|a, b| (a.0.as_str(), a.2.len(), &a.2).cmp(&(b.0.as_str(), b.2.len(), &b.2)));
+    for (sig, ti, b, what) in total.viol {
+        r.violation(&sig, json!({"case": {"target": targets[ti].name, "input_hex": hex(&b)}, "what": what, "phase": "in-process sweep"}));
+    }
+}
+
+// ---------------------------------------------------------------------------------------------
+
+fn replay(r: &Report, path: &std::path::Path, targets: &[Target]) {
+    let v: serde_json::Value = match std::fs::read_to_string(path).ok().and_then(|t| serde_json::from_str(&t).ok()) {
+        Some(v) => v,
+        None => {
+            r.machinery_error("cannot read replay file");
+            return;
+        }
+    };
+    let case = &v["detail"]["case"];
+    r.rule("replay of one recorded case in a limited child process");
+    r.nontrivial(b"replay-a");
+    r.nontrivial(b"replay-b");
+    let (family, index) = if let (Some(f), Some(i)) = (case["family"].as_str(), case["index"].as_u64()) {
+        (f.to_string(), i as usize)
+    } else if let (Some(t), Some(h)) = (case["target"].as_str(), case["input_hex"].as_str()) {
+        // ad-hoc input: hand it to the child through the environment
+        std::env::set_var("C13_ADHOC_TARGET", t);
+        std::env::set_var("C13_ADHOC_INPUT", h);
+        ("adhoc".to_string(), 0)
+    } else {
+        r.machinery_error("replay file has neither detail.case.{family,index} nor {target,input_hex}");
+        return;
+    };
+    let thorough = case["tier"].as_str() == Some("thorough");
+    let mut st = FamilyStats::default();
+    let (_, death) = run_child(&family, index, index + 1, thorough, targets, &mut st);
+    r.eval(1);
+    r.sample(json!({"replay": {"family": family, "index": index}, "death": death.as_ref().map(|d| format!("{}: {}", d.class, d.detail)), "ok": st.ok, "err": st.err, "panics": st.panics, "max_peak": st.max_peak}));
+    println!("[C13] replay family={family} index={index}: ok={} err={} panics={} death={:?} max_peak={}", st.ok, st.err, st.panics, death, st.max_peak);
+    for v in st.violations {
+        r.violation(&v.sig, json!({"case": {"family": v.family, "index": v.index}, "target": v.target, "what": v.what}));
+    }
+}
 
 fn main() {
+    let args: Vec<String> = std::env::args().collect();
+    if let Some(p) = args.iter().position(|a| a == "--child") {
+        child_main(&args[p + 1..]);
+    }
     let r = Report::new("C13", Level::Exploration);
-    r.machinery_error("check not implemented yet");
+    mc::quiet_panics();
+    let targets = targets::all();
+    // context shared with the children (valid WAL segment bytes etc.) lives in the scratch dir
+    let ctx = Ctx::create(&mc::scratch_root());
+    if let Some(p) = r.replay.clone() {
+        replay(&r, &p, &targets);
+        r.finish();
+    }
+    r.rule("every target (all C12 decoders + WSC reader/validator + unvalidated WSC view + WAL segment reader + warp-wasm byte boundary) × (i) EVERY byte string of length ≤2 (quick) / ≤3 (thorough), in-process; (ii) in limited child processes: every CBOR header shape × declared length {0,1,23,24,255,256,65535,65536,2^32−1,2^32,2^63,2^64−1} (every width that can carry it) × tail {none, 1 byte, exact when ≤64 KiB} at top level / inside an array / as a map value; nesting depth 2^0..2^15 (quick) / 2^20 (thorough) of arrays, map values, map keys, tags, LE options, plus bisection of the first failing depth; truncation of every valid encoding at every length; a lying u64/u32 length written at every offset of valid encodings, WSC files (every 8-aligned field: 0,1,len,len+1,2^32,2^64−1 and the length list) and WAL segments (raw and with re-signed disk records); single-position mutants of valid encodings and of the WAL segment; the warp-wasm native boundary on sweeps, EINT headers with lying lengths and mutated valid requests. distinct_nontrivial = distinct (target,input) pairs that ran to a verdict.");
+    r.assume(&format!("child limits: RLIMIT_AS {} MiB, RLIMIT_STACK {} MiB (main thread runs the decoders), no-progress timeout {} s; budget per input: peak allocation ≤ 64·len + 16 MiB measured by a counting #[global_allocator], CPU time of the call ≤ 2 s (wall is not used: the box is shared), hang = no progress for the timeout", RLIMIT_AS_BYTES >> 20, RLIMIT_STACK_BYTES >> 20, CHILD_SILENCE_TIMEOUT.as_secs()));
+    r.assume("'random inputs up to 1 MiB' of the property text is sampling and is not done; the nesting family reaches 1 MiB inputs in the thorough tier");
+    r.note("targets", json!(targets.iter().map(|t| json!({"name": t.name, "signature_group": t.sig_group, "child_only": t.child_only})).collect::<Vec<_>>()));
+
+    // (0) the supervision machinery must classify known endings correctly (vacuity of the oracle)
+    r.guard("wal_segment_fixture_recovers_cleanly", families::segment_is_valid(&ctx));
+    r.counter("wal_segment_fixture_bytes", ctx.segment.len() as u64);
+    let selftests = std::thread::spawn(|| {
+        let targets: Vec<Target> = Vec::new();
+        let kinds = [("ok", "normal"), ("panic", "normal"), ("alloc", "alloc"), ("stack", "stack"), ("hang", "hang"), ("abort", "signal")];
+        let _ = &targets;
+        let handles: Vec<_> = kinds
+            .iter()
+            .map(|(kind, expect)| {
+                let (kind, expect) = (kind.to_string(), expect.to_string());
+                std::thread::spawn(move || {
+                    let mut st = FamilyStats::default();
+                    let (_, death) = run_child(&format!("selftest-{kind}"), 0, 1, false, &[], &mut st);
+                    let got = st.deaths.keys().next().cloned().unwrap_or_else(|| death.as_ref().map(|d| d.class.to_string()).unwrap_or_else(|| "normal".into()));
+                    (kind, expect, got, format!("{death:?} {:?}", st.deaths))
+                })
+            })
+            .collect();
+        handles.into_iter().filter_map(|h| h.join().ok()).collect::<Vec<_>>()
+    });
+
+    // (i) in-process sweep
+    sweep(&r, &targets);
+
+    // (ii) families in children
+    let thorough = r.thorough();
+    let sizes: Vec<(usize, usize)> = FAMILIES
+        .par_iter()
+        .enumerate()
+        .map(|(fi, f)| {
+            let mut n = 0usize;
+            (f.gen)(&ctx, &targets, thorough, &mut |_t, _b| n += 1);
+            (fi, n)
+        })
+        .collect();
+    let stats: Vec<(usize, FamilyStats)> = sizes
+        .par_iter()
+        .flat_map(|(fi, n)| {
+            // split big families into chunks so children run concurrently
+            let chunk = (*n / 16).max(2_000);
+            let mut v = Vec::new();
+            let mut lo = 0;
+            while lo < *n {
+                v.push((*fi, lo, (lo + chunk).min(*n)));
+                lo += chunk;
+            }
+            v
+        })
+        .filter(|(fi, _, _)| std::env::var("C13_ONLY").map(|o| o == FAMILIES[*fi].name).unwrap_or(true))
+        .map(|(fi, lo, hi)| {
+            let f = &FAMILIES[fi];
+            let mut st = FamilyStats::default();
+            let mut cur = lo;
+            let mut restarts = 0;
+            let t0 = Instant::now();
+            struct Done<'a>(&'a str, usize, usize, Instant);
+            impl Drop for Done<'_> {
+                fn drop(&mut self) {
+                    if std::env::var("C13_VERBOSE").is_ok() {
+                        eprintln!("[c13] chunk {} [{}, {}) took {:.1}s", self.0, self.1, self.2, self.3.elapsed().as_secs_f64());
+                    }
+                }
+            }
+            let _done = Done(f.name, lo, hi, t0);
+            while cur < hi {
+                let (next, death) = run_child(f.name, cur, hi, thorough, &targets, &mut st);
+                if death.is_none() {
+                    break;
+                }
+                restarts += 1;
+                if restarts > 5000 {
+                    st.violations.push(Viol { sig: "harness:too-many-child-restarts".into(), family: f.name.into(), index: cur, target: String::new(), len: 0, what: String::new() });
+                    break;
+                }
+                cur = next;
+            }
+            (fi, st)
+        })
+        .collect();
+    let _ = run_family; // (kept for replay tooling)
+    let mut viols: Vec<Viol> = Vec::new();
+    let mut per_family: BTreeMap<&'static str, serde_json::Value> = BTreeMap::new();
+    let mut merged: BTreeMap<usize, FamilyStats> = BTreeMap::new();
+    for (fi, st) in stats {
+        let m = merged.entry(fi).or_default();
+        m.inputs += st.inputs;
+        m.ok += st.ok;
+        m.err += st.err;
+        m.panics += st.panics;
+        m.over_budget += st.over_budget;
+        m.over_time += st.over_time;
+        m.children += st.children;
+        m.max_peak = m.max_peak.max(st.max_peak);
+        m.max_micros = m.max_micros.max(st.max_micros);
+        for (k, v) in st.deaths {
+            *m.deaths.entry(k).or_default() += v;
+        }
+        for (k, v) in st.err_kinds {
+            *m.err_kinds.entry(k).or_default() += v;
+        }
+        m.keys.extend(st.keys);
+        m.violations.extend(st.violations);
+    }
+    let mut all_classes: BTreeMap<String, u64> = BTreeMap::new();
+    for (fi, n) in &sizes {
+        let f = &FAMILIES[*fi];
+        let st = merged.remove(fi).unwrap_or_default();
+        r.eval(st.inputs);
+        r.nontrivial_many(st.keys.iter().copied());
+        r.outcome_n(&format!("{}:returned_ok", f.name), st.ok);
+        r.outcome_n(&format!("{}:returned_typed_err", f.name), st.err);
+        if st.panics > 0 {
+            r.outcome_n(&format!("{}:panicked", f.name), st.panics);
+        }
+        for (k, v) in &st.deaths {
+            r.outcome_n(&format!("{}:child_died:{k}", f.name), *v);
+            *all_classes.entry(k.clone()).or_default() += v;
+        }
+        *all_classes.entry("normal".into()).or_default() += st.children.saturating_sub(st.deaths.values().sum::<u64>());
+        let distinct_err: Vec<String> = st.err_kinds.iter().map(|(k, v)| format!("{k}×{v}")).collect();
+        per_family.insert(
+            f.name,
+            json!({"what": f.what, "inputs_generated": n, "inputs_run": st.inputs, "ok": st.ok, "typed_err": st.err, "panics": st.panics, "over_budget": st.over_budget, "over_2s": st.over_time,
+                   "children": st.children, "child_deaths": st.deaths, "max_peak_allocation_bytes": st.max_peak, "max_wall_us": st.max_micros as u64, "typed_errors": distinct_err}),
+        );
+        r.guard(&format!("family_ran_every_input:{}", f.name), st.inputs as usize == *n);
+        r.guard(&format!("family_nonempty:{}", f.name), *n > 0);
+        r.guard(&format!("family_saw_typed_errors:{}", f.name), st.err > 0);
+        viols.extend(st.violations);
+    }
+    let mut classes_seen: BTreeMap<String, u64> = BTreeMap::new();
+    for (kind, expect, got, death) in selftests.join().unwrap_or_default() {
+        *classes_seen.entry(got.clone()).or_default() += 1;
+        r.guard(&format!("selftest:child_ending_classified:{kind}"), got == expect);
+        if got != expect {
+            r.machinery_error(&format!("selftest child '{kind}' classified as {got} ({death}), expected {expect}"));
+        }
+    }
+    r.note("selftest:exit_classes", json!(classes_seen));
+    r.guard("selftest:distinct_exit_classes", classes_seen.len() >= 5);
+
+    // minimal nesting depth that kills a decoder (bisection between the last surviving and the
+    // first failing power of two), per (target, shape) that overflowed the stack
+    let mut min_depths = serde_json::Map::new();
+    {
+        let mut failing: BTreeMap<(String, &'static str), ()> = BTreeMap::new();
+        for v in viols.iter().chain(merged.values().flat_map(|m| m.violations.iter())) {
+            let _ = v;
+        }
+        for (tname, shape) in [("abi-cbor", "array"), ("abi-cbor", "map-value"), ("abi-cbor", "map-key"), ("wasm:observe_cbor", "array"), ("edict-cbor", "array"), ("scene-cbor:SceneDelta", "array")] {
+            failing.insert((tname.to_string(), shape), ());
+        }
+        let max_depth = 1usize << r.pick(15, 20);
+        for ((tname, shape), ()) in failing {
+            let dies = |d: usize| -> Option<String> {
+                let input = families::nested(shape, d);
+                let p = mc::scratch_root().join(format!("adhoc-{}-{shape}-{d}.bin", sanitize(&tname)));
+                let _ = std::fs::write(&p, &input);
+                let (_, death, st) = adhoc(&tname, &p, &targets);
+                let _ = std::fs::remove_file(&p);
+                st.deaths.keys().next().cloned().or(death.map(|x| x.class.to_string()))
+            };
+            r.eval(1);
+            let Some(class) = dies(max_depth) else {
+                min_depths.insert(format!("{tname}:{shape}"), json!({"survives_depth": max_depth}));
+                continue;
+            };
+            let (mut lo, mut hi) = (0usize, max_depth); // lo survives (depth 0 trivially), hi dies
+            while hi - lo > 1 {
+                let mid = lo + (hi - lo) / 2;
+                r.eval(1);
+                if dies(mid).is_some() {
+                    hi = mid;
+                } else {
+                    lo = mid;
+                }
+            }
+            min_depths.insert(format!("{tname}:{shape}"), json!({"minimal_fatal_depth": hi, "input_bytes": families::nested(shape, hi).len(), "class": class, "stack_limit_mib": RLIMIT_STACK_BYTES >> 20}));
+        }
+    }
+    r.note("nesting:minimal_fatal_depth", serde_json::Value::Object(min_depths));
+    r.note("families", json!(per_family));
+    r.note("child_exit_classes", json!(all_classes));
+    r.counter("children_spawned", CHILDREN.load(Ordering::Relaxed));
+    r.guard("children_were_run", CHILDREN.load(Ordering::Relaxed) >= FAMILIES.len() as u64);
+    r.guard("normal_child_exit_seen", all_classes.get("normal").copied().unwrap_or(0) > 0);
+    // minimal input first per signature
+    viols.sort_by(|a, b| (a.sig.as_str(), a.len, a.index).cmp(&(b.sig.as_str(), b.len, b.index)));
+    let mut shown: BTreeMap<String, u32> = BTreeMap::new();
+    for v in &viols {
+        let n = shown.entry(v.sig.clone()).or_default();
+        *n += 1;
+        let input_hex = if *n == 1 { families::input_of(&ctx, &targets, thorough, &v.family, v.index).map(|b| if b.len() <= 96 { hex(&b) } else { format!("{}…({} bytes)", hex(&b[..48]), b.len()) }) } else { None };
+        r.violation(&v.sig, json!({"case": {"family": v.family, "index": v.index, "tier": if thorough {"thorough"} else {"quick"}}, "target": v.target, "input_len": v.len, "input_hex": input_hex, "what": v.what}));
+    }
+    if let Some(v) = viols.first() {
+        r.sample(json!({"violating_case": {"family": v.family, "index": v.index, "target": v.target, "what": v.what}}));
+    }
+    r.sample(json!({"family": "cbor-header-lengths", "example": "9a ff ff ff ff  (array, 4-byte count 2^32−1, no tail) → abi-cbor, every DTO decoder, edict, scene, EINT-wrapped, wasm observe_cbor"}));
+    let _ = unhex;
     r.finish();
 }
